@@ -5,12 +5,13 @@ CONSTANTS
   PolysPerTask = 2
   MaxRaw = 1
   Need = 2
-  FB = 1
+  FB = 2
   Target0 = 1
   Slack = 0
   Seq = FALSE
   UseLock = TRUE
   UseGapAtomic = TRUE
+  FinalTestsDone = TRUE
   AbortEnabled = TRUE
 SYMMETRY Perms
 INVARIANT TypeOK
@@ -19,7 +20,6 @@ INVARIANT NoLostInsert
 INVARIANT FinalValid
 INVARIANT FlagsTruthful
 INVARIANT CompleteOrExhausted
-INVARIANT PanicOnlyIfShortOrStale
 INVARIANT NoSpuriousPanic
 INVARIANT AbortBounded
 CHECK_DEADLOCK TRUE
